@@ -22,7 +22,7 @@ CONTRACTED = ['phylib/utils/event.py::EventEmitter.__init__', 'phylib/utils/even
               'phylib/utils/event.py::ProgressReporter.value', 'phylib/utils/event.py::ProgressReporter.value_max',
               'phylib/utils/event.py::ProgressReporter.set_complete']
 
-EVENTS = ('e0', 'e1')
+EVENTS = ('e0', 'e0_x')     # one event name is a prefix of the other and contains an underscore
 SENDER_NAME = {'s0': 'a', 's0b': 'a', 's1': 'b', 's2': 'c'}   # s0b: a distinct object that == s0
 N_CALLBACKS = 5
 
@@ -66,7 +66,7 @@ class World(object):
             def on_e0(self, sender, *args, **kwargs):
                 return world.called(2, sender, args, kwargs)
 
-            def on_e1(self, sender, *args, **kwargs):
+            def on_e0_x(self, sender, *args, **kwargs):
                 return world.called(3, sender, args, kwargs)
         self.owner = Owner()
         self._plain = {}
@@ -287,40 +287,49 @@ def case_emitter(inp):
 # ----------------------------------------------------------------------------------------------
 
 def _reporter_model(ops, n):
-    """Reference model written from the statement.  Yields per op (reporter, expected, divergent):
-    expected announcements of the operated reporter during the op; divergent=True where the statement
-    ('the maximum was last raised') and the code-favouring reading differ: the maximum was raised by
-    reset(value_max=...) rather than by the value_max setter since the last announcement."""
-    st = [{'v': 0, 'm': 0, 'armed': True, 'armed_lenient': True} for _ in range(n)]
+    """Reference model written from the statement.  Yields per op (reporter, expected, tag).
+    Three ghosts "completion may be announced" are kept, one per reading of the statement:
+      A  reset() is not a value update (Appendix G); reset(value_max=m) with m above the maximum raises the maximum;
+      B  reset() sets the value (to 0), hence below any positive maximum;
+      C  as A, but only the value_max setter counts as raising the maximum (what the code does).
+    On an update that reaches the maximum: A == B decides `expected` (tag 'exact'); A != B means the
+    statement does not decide (tag 'open': at most one announcement is demanded).  Where A == B == armed
+    but C is not, the maximum was raised by reset(value_max=...) since the last announcement with no
+    value below it set since: expected 1 under every reading of the statement (tag 'raised-by-reset')."""
+    st = [{'v': 0, 'm': 0, 'A': True, 'B': True, 'C': True} for _ in range(n)]
     out = []
     for op in ops:
         s = st[op[0]]
         kind = op[1]
-        exp, div = 0, False
+        exp, tag = 0, 'exact'
         if kind in ('inc', 'set', 'complete'):
             v = s['v'] + 1 if kind == 'inc' else (op[2] if kind == 'set' else s['m'])
             if v < s['m']:
-                s['armed'] = s['armed_lenient'] = True      # value set below the maximum
+                s['A'] = s['B'] = s['C'] = True              # value set below the maximum
             s['v'] = v
             if v >= s['m']:                                  # the update reaches the maximum
-                if s['armed'] == s['armed_lenient']:
-                    exp = 1 if s['armed'] else 0
+                if s['A'] != s['B']:
+                    exp, tag = 1, 'open'
                 else:
-                    exp, div = 1, True
-                s['armed'] = s['armed_lenient'] = False
+                    exp = 1 if s['A'] else 0
+                    if s['A'] and not s['C']:
+                        tag = 'raised-by-reset'
+                s['A'] = s['B'] = s['C'] = False
         elif kind == 'max':
             if op[2] > s['m']:
-                s['armed'] = s['armed_lenient'] = True      # the maximum was raised
+                s['A'] = s['B'] = s['C'] = True              # the maximum was raised
             s['m'] = op[2]
         elif kind == 'reset':
-            s['v'] = 0                                       # not a value update (Appendix G)
+            s['v'] = 0
             if len(op) > 2 and op[2] is not None:
                 if op[2] > s['m']:
-                    s['armed'] = True                        # raised; the lenient reading does not re-arm
+                    s['A'] = s['B'] = True                   # raised (C: not through the setter)
                 s['m'] = op[2]
+            if 0 < s['m']:
+                s['B'] = True                                # reading B: the value is now below the maximum
         else:
             raise ValueError('harness: unknown reporter op %r' % (op,))
-        out.append((op[0], exp, div))
+        out.append((op[0], exp, tag))
     return out
 
 
@@ -345,7 +354,7 @@ def case_reporter(inp):
         elif not ok and cur[0]:
             acc[name] = [False, detail]
 
-    for i, (op, (r, exp, div)) in enumerate(zip(ops, model)):
+    for i, (op, (r, exp, tag)) in enumerate(zip(ops, model)):
         pr = prs[r]
         del heard[:]
         kind = op[1]
@@ -365,8 +374,10 @@ def case_reporter(inp):
                 pr.reset()
         mine = sum(1 for s, _ in heard if s is pr)
         others = len(heard) - mine
-        if div:
+        if tag == 'raised-by-reset':
             note('announces-completion-when-maximum-was-raised-by-reset', mine == 1, (i, op, mine))
+        elif tag == 'open':
+            note('announces-at-most-once-per-crossing', mine <= 1, (i, op, mine, '<=1'))
         else:
             if exp:
                 note('announces-completion-when-update-reaches-maximum-unannounced', mine >= 1, (i, op, mine))
@@ -427,7 +438,7 @@ def _known_reset_raises_max(case, clause, inp):
     update goes straight to >= the new maximum: reset() writes _value_max without re-arming."""
     if case != 'reporter' or clause != 'announces-completion-when-maximum-was-raised-by-reset':
         return False
-    return any(div for _, _, div in _reporter_model(inp['ops'], inp.get('n', 1)))
+    return any(tag == 'raised-by-reset' for _, _, tag in _reporter_model(inp['ops'], inp.get('n', 1)))
 
 
 KNOWN_CLASSES = {
@@ -548,7 +559,7 @@ def enumerate_cases(ctx):
 
     # A. registry histories, exhaustive
     D = 3
-    ctx.scope('emitter/registry: ALL histories of %d operations over {connect(callback c0..c2 [c2 a bound method], event e0/e1, '
+    ctx.scope('emitter/registry: ALL histories of %d operations over {connect(callback c0..c2 [c2 a bound method], event e0/e0_x, '
               'sender filter none/s0/s1, plain/last; connect style rotating over by-name/explicit/decorator), unconnect(callback | sender s0 | s1), '
               'reset}, callbacks introduced in index order; after EVERY operation all emits (2 events x senders s0,s1 x with/without single, '
               'rotating argument lists) are compared with the view' % D)
@@ -556,7 +567,7 @@ def enumerate_cases(ctx):
         ctx.run('emitter', {'ops': h})
     if not quick:
         ctx.scope('emitter/registry: ALL histories of 4 operations over the same alphabet restricted to sender filter none/s0 and '
-                  'unconnect(callback | s0), probes e0/e1 x s0,s1')
+                  'unconnect(callback | s0), probes e0/e0_x x s0,s1')
         for h in _registry_histories(4, 3, (None, 's0'), (None, True), ('s0',)):
             ctx.run('emitter', {'ops': h})
     # all connect styles x last values x filters, single registration then a second one, on both the fresh and the global emitter
@@ -578,7 +589,7 @@ def enumerate_cases(ctx):
     ctx.scope('emitter/unconnect: 5 registrations (function, bound methods of one owner, partial; filters none/s0/s1) then every '
               'unconnect target set of size 1..2 over {c0..c4, s0, s1, s0b, s2, owner}')
     base = [['connect', 0, 'e0', None, None, 'name'], ['connect', 2, 'e0', 's0', True, 'deco_name'], ['connect', 3, 'e0', None, None, 'explicit'],
-            ['connect', 4, 'e0', 's1', None, 'deco'], ['connect', 1, 'e0', 's0', None, 'explicit'], ['connect', 0, 'e1', 's1', True, 'explicit']]
+            ['connect', 4, 'e0', 's1', None, 'deco'], ['connect', 1, 'e0', 's0', None, 'explicit'], ['connect', 0, 'e0_x', 's1', True, 'explicit']]
     pool = ['c%d' % k for k in range(N_CALLBACKS)] + ['s0', 's1', 's0b', 's2', 'o']
     for n in (1, 2):
         for tg in itertools.combinations(pool, n):
